@@ -73,6 +73,23 @@ theorem evalAt_eq_zero_iff (r : Nat) (hr : r < 256) (w : Bytes) (hw : isBytes w 
     evalAt r w = 0 ↔ horner (ofNat r) (w.map ofNat) = 0 := by
   rw [← evalAt_ofNat r hr w hw, ofNat_eq_zero (evalAt_lt r hr w hw)]
 
+/-- the syndromes may equally be computed with the reference multiplication (carry-less product,
+long division by 0x11D) instead of the table-driven `logMultiply` -/
+theorem evalAt_spec (r : Nat) (hr : r < 256) (w : Bytes) (hw : isBytes w = true) :
+    evalAt r w = w.foldl (fun acc x => clmulMod fieldPoly acc r ^^^ x) 0 := by
+  unfold evalAt
+  suffices h : ∀ acc, acc < 256 →
+      w.foldl (fun acc x => Nat.xor (logMultiply acc r) x) acc
+        = w.foldl (fun acc x => clmulMod fieldPoly acc r ^^^ x) acc from h 0 (by omega)
+  induction w with
+  | nil => intro acc _; rfl
+  | cons x xs ih =>
+    intro acc ha
+    simp only [isBytes, List.all_cons, Bool.and_eq_true, decide_eq_true_eq] at hw
+    simp only [List.foldl_cons]
+    have h1 : Nat.xor (logMultiply acc r) x < 256 := xor_lt_256 (logMultiply_lt _ _) hw.1
+    rw [ih hw.2 _ h1, nxor, logMultiply_eq_clmulMod acc r ha hr]
+
 theorem foldl_horner (r : GF) (w : List GF) (acc : GF) :
     w.foldl (fun acc x => acc * r + x) acc
       = acc * r ^ w.length + ∑ i ∈ Finset.range w.length, w.getD i 0 * r ^ (w.length - 1 - i) := by
